@@ -200,8 +200,18 @@ def check_sub_dual_etc(H, spec, out, stats, allow_inplace=True):
     M = model(H)
     nodes, edges, mem = M["nodes"], M["edges"], M["mem"]
     # subhypergraph x every node subset x every edge subset
-    nsubs = [None] + [list(c) for k in range(0, len(nodes) + 1) for c in itertools.combinations(nodes, k)] + [[nodes[0], "zz"] if nodes else ["zz"]]
-    esubs = [None] + [list(c) for k in range(0, len(edges) + 1) for c in itertools.combinations(edges, k)]
+    def subsets(ids):
+        if len(ids) <= 6:
+            return [list(c) for k in range(0, len(ids) + 1) for c in itertools.combinations(ids, k)]
+        # wide networks: structured selections (empty, all, each complement of one, halves, alternating, the two-digit
+        # positions, a few pairs across the one-digit / two-digit boundary)
+        out = [[], list(ids), ids[: len(ids) // 2], ids[len(ids) // 2:], ids[::2], ids[1::2], ids[10:], ids[:10], ids[::-1][:5]]
+        out += [[x for x in ids if x != y] for y in (ids[0], ids[2], ids[10], ids[-1])]
+        out += [[ids[2], ids[10]], [ids[10], ids[11], ids[3]], [ids[1], ids[2], ids[10], ids[11]]]
+        return out
+
+    nsubs = [None] + subsets(nodes) + [[nodes[0], "zz"] if nodes else ["zz"]]
+    esubs = [None] + subsets(edges)
     for ns in nsubs:
         for es in esubs:
             for keep in (True, False):
@@ -398,6 +408,7 @@ def _work(item):
                     # the same object again after in-place edits (another history, other members, one more edge)
                     F.detour(X)
                     F.morph(X)
+                    F.rename(X)  # one node replaced by a node with a new label
                     F.grow(X)
                     k = len(out)
                     check_sub_dual_etc(X, spec, out, stats, allow_inplace=False)
@@ -451,6 +462,8 @@ def family(tier):
                     # be mutually orderable, so mixed-type IDs go with duplicate-free inputs only
                     eids = list(range(m))
                 items.append(("H", F.relabel(s, node_map=nm, edge_ids=eids)))
+    for s in F.wide():  # more than ten nodes and edges: positions with two digits
+        items.append(("H", s))
     red = base[::17][:14]
     for a, b in itertools.product(red, repeat=2):
         b2 = F.relabel(b, node_map={1: 1, 2: 5, 3: 6, 4: 2})
